@@ -34,11 +34,16 @@ def hswishRefTable (signed : Bool) (zpIn zpOut outScale16 outShift reluScale16 r
 def quantRefTable (quantMin quantMax zpIn zpOut mult shift : Int) (vals : List Int) : List Int :=
   vals.map (Gemmlowp.requantizeRef quantMin quantMax zpIn zpOut mult (31 - shift))
 
+/-- first index at which two equally long tables differ (linear scan) -/
+def firstDiff : List Int → List Int → Nat → Option (Nat × Int × Int)
+  | a :: as, b :: bs, i => if a ≠ b then some (i, a, b) else firstDiff as bs (i + 1)
+  | _, _, _ => none
+
 def cmpTables (ref real : List Int) : String :=
   if ref.length ≠ real.length then s!"0 length {real.length} expected {ref.length}" else
-  match (List.range ref.length).find? (fun i => ref[i]? ≠ real[i]?) with
+  match firstDiff ref real 0 with
   | none => "1"
-  | some i => s!"0 index {i} expected {ref.getD i 0} got {real.getD i 0}"
+  | some (i, e, g) => s!"0 index {i} expected {e} got {g}"
 
 /-! ### sigmoid / tanh / generic real functions: evaluated with `Float` (validated, not proved) -/
 
@@ -138,6 +143,32 @@ def handle : List String → Option String
       if ¬ real.all (fun v => decide (lo ≤ v) && decide (v ≤ hi)) then some "0 range" else
       some (cmpTables (quantRefTable lo hi zi zo m sh vals) real)
     | _ => none
+  | "lutchk" :: "quantf" :: args => do
+    -- lutchk quantf lo hi zi zo m1 e1 m2 e2 <n constants> <n folded values>: the scales are the doubles m·2^e
+    match ← parseInts args with
+    | lo :: hi :: zi :: zo :: m1 :: e1 :: m2 :: e2 :: rest =>
+      if m1 ≤ 0 ∨ m2 ≤ 0 then some "na" else
+      let n := rest.length / 2
+      let vals := rest.take n
+      let real := rest.drop n
+      let d := Gemmlowp.doubleQuotient m1.toNat e1 m2.toNat e2
+      let ms := Gemmlowp.quantizeMultiplier d.1 d.2
+      -- TFLite shift t = 31 - vela shift; outside what Vela's quantise_scale covers (C09) -> na
+      let velaShift := 31 - ms.2
+      if (d.1 + 2 ^ 21) / 2 ^ 22 = 2 ^ 31 then some "na" else
+      if ¬ vals.all (fun v => mbqmDefined (v - zi) ms.1 velaShift) then some "na" else
+      if ¬ real.all (fun v => decide (lo ≤ v) && decide (v ≤ hi)) then some "0 range" else
+      some (cmpTables (vals.map (Gemmlowp.requantizeRef lo hi zi zo ms.1 ms.2)) real ++ s!" mult {ms.1} shift {velaShift}")
+    | _ => none
+  | ["qmult", m1, e1, m2, e2] => do
+    let m1 ← parseNat? m1
+    let e1 ← parseInt? e1
+    let m2 ← parseNat? m2
+    let e2 ← parseInt? e2
+    if m1 = 0 ∨ m2 = 0 then some "na" else
+    let d := Gemmlowp.doubleQuotient m1 e1 m2 e2
+    let ms := Gemmlowp.quantizeMultiplier d.1 d.2
+    some s!"{d.1} {d.2} {ms.1} {31 - ms.2}"
   | [cmd, kind, sg, sInBits, sOutBits, zi, zo] => do
     if cmd ≠ "lutf" && cmd ≠ "lutfd" then none else
     let fn ← realFn kind
